@@ -279,6 +279,14 @@ func init() {
 			opWith(h, c, o, func(op map[string]interface{}) { op[kv[0].(string)] = kv[1] })
 		}})
 	}
+	// a label change that names one label twice, and one that also takes it away again: both pass
+	// validation; interpreting them must not trip over the duplicate
+	add(mutation{Name: "op-label-added-twice", Level: "commit", Verdict: "either", Props: "C07", Applies: nonMergeNonRoot, Apply: func(h *history, c, o int) {
+		h.Nodes[c].Spec.Ops = append(h.Nodes[c].Spec.Ops, model.OpJSON(map[string]interface{}{"type": model.OpLabelChange, "timestamp": 1700000789, "nonce": model.Nonce(uint64(c)+515, 20), "added": []string{"dup", "dup"}, "removed": []string{}}))
+	}})
+	add(mutation{Name: "op-label-added-twice-and-removed", Level: "commit", Verdict: "either", Props: "C07", Applies: nonMergeNonRoot, Apply: func(h *history, c, o int) {
+		h.Nodes[c].Spec.Ops = append(h.Nodes[c].Spec.Ops, model.OpJSON(map[string]interface{}{"type": model.OpLabelChange, "timestamp": 1700000789, "nonce": model.Nonce(uint64(c)+616, 20), "added": []string{"dup", "dup"}, "removed": []string{"dup"}}))
+	}})
 	add(mutation{Name: "first-op-not-create", Level: "commit", Verdict: "either", Props: "C07", Applies: isRoot, Apply: func(h *history, c, o int) {
 		opWith(h, c, 0, func(op map[string]interface{}) { op["type"] = model.OpAddComment })
 	}})
@@ -357,6 +365,28 @@ func init() {
 		}
 		h.Nodes[c+1].Parents = append(h.Nodes[c+1].Parents, c)
 		h.Nodes[c+1].Spec.Ops = nil // now a merge commit: keep it free of operations
+	}})
+	add(mutation{Name: "second-root-sorting-after-the-first", Level: "commit", Verdict: "reject", Props: "C03 C07", Applies: nonMergeNonRoot, Apply: func(h *history, c, o int) {
+		// as above, but the foreign root is complete (creation clock included), its clocks grow along
+		// every edge and it sorts after the genuine root, so the entity keeps its id: only the
+		// number of roots gives it away
+		bump(h, c, 3)
+		r2 := &node{Spec: h.Nodes[0].Spec}
+		// an ordinary comment, so that the bug's own rules (one creation, first) have nothing to object to
+		r2.Spec.Ops = []json.RawMessage{model.OpJSON(map[string]interface{}{"type": model.OpAddComment, "timestamp": 1700000456, "nonce": model.Nonce(4343, 20), "message": "from another root", "files": nil})}
+		r2.Spec.Edit = h.Nodes[c].Spec.Edit - 1
+		h.Nodes = append(h.Nodes, nil)
+		copy(h.Nodes[c+1:], h.Nodes[c:])
+		h.Nodes[c] = r2
+		for i := c + 1; i < len(h.Nodes); i++ {
+			for k := range h.Nodes[i].Parents {
+				if h.Nodes[i].Parents[k] >= c {
+					h.Nodes[i].Parents[k]++
+				}
+			}
+		}
+		h.Nodes[c+1].Parents = append(h.Nodes[c+1].Parents, c)
+		h.Nodes[c+1].Spec.Ops = nil
 	}})
 	add(mutation{Name: "root-replaced-foreign-history", Level: "ref", Verdict: "reject", Props: "C07", Applies: always, Apply: func(h *history, c, o int) {
 		// ref name of this bug, content of another bug (a different root)
